@@ -463,11 +463,13 @@ pub fn run_property(prop: &PropertyDef, tier: Tier, seed: u64) -> RunResult {
         }
     }
 
-    // 3. committed regression replays
+    // 3. committed regression replays (on a thread with the workers' stack size: scale cases recurse
+    // as deep as their terms)
     let regdir = format!("{}/replays/regression/{}", verif_dir(), prop.id);
     if let Ok(rd) = std::fs::read_dir(&regdir) {
         let mut files: Vec<_> = rd.filter_map(|e| e.ok()).map(|e| e.path()).collect();
         files.sort();
+        let mut jobs: Vec<(String, fn(&[u8], &Ctx) -> CaseInfo, Vec<u8>, Ctx)> = vec![];
         for p in files {
             if p.extension().map(|e| e == "json").unwrap_or(false) {
                 if let Some((fam, bytes)) = read_replay(p.to_str().unwrap()) {
@@ -477,14 +479,33 @@ pub fn run_property(prop: &PropertyDef, tier: Tier, seed: u64) -> RunResult {
                         if file_tier == Tier::Thorough && tier == Tier::Quick {
                             continue;
                         }
-                        let rctx = Ctx { tier: file_tier, ..ctx };
-                        let info = (f.run)(&bytes, &rctx);
-                        stats.record(&info);
-                        if let Some(fl) = info.failure {
-                            stats.failures.push((fam.clone(), fl, Some(bytes)));
-                        }
+                        jobs.push((fam.clone(), f.run, bytes, Ctx { tier: file_tier, ..ctx }));
                     }
                 }
+            }
+        }
+        let handle = std::thread::Builder::new().stack_size(WORKER_STACK).spawn(move || {
+            let mut out: Vec<(String, Vec<u8>, CaseInfo)> = vec![];
+            for (fam, run, bytes, rctx) in jobs {
+                crate::crash::enter(&fam, &bytes);
+                let info = run(&bytes, &rctx);
+                crate::crash::leave();
+                out.push((fam, bytes, info));
+            }
+            out
+        });
+        match handle.map(|h| h.join()) {
+            Ok(Ok(results)) => {
+                for (fam, bytes, info) in results {
+                    stats.record(&info);
+                    if let Some(fl) = info.failure {
+                        stats.failures.push((fam, fl, Some(bytes)));
+                    }
+                }
+            }
+            _ => {
+                eprintln!("INFRA: the regression replays could not be run");
+                infra_problem = true;
             }
         }
     }
